@@ -206,7 +206,13 @@ class G:
                 body = self.block(inner, depth + 1, rng.randrange(1, 5), mult)
                 if body:
                     out.append({"op": "ifnz", "v": rng.choice(ints), "body": body})
-            elif r < p["w_invoke"] + 0.40 + p["w_loop"] + p["w_if"] + p["w_stk"]:
+            elif r < p["w_invoke"] + 0.40 + p["w_loop"] + p["w_if"] + p.get("w_switch", 0.03) and depth < 2 and ints:
+                cases = []
+                for _ in range(rng.choice([2, 2, 4])):
+                    inner = set(defined)
+                    cases.append(self.block(inner, depth + 1, rng.randrange(0, 4), mult))
+                out.append({"op": "switch", "v": rng.choice(ints), "cases": cases})
+            elif r < p["w_invoke"] + 0.40 + p["w_loop"] + p["w_if"] + p.get("w_switch", 0.03) + p["w_stk"]:
                 if rng.random() < 0.5 or not defined:
                     self.nstk += 1
                     st = {"op": "stk", "slot": -self.nstk, "size": rng.choice([8, 16, 32, 64, 100]), "align": rng.choice(p["aligns"])}
@@ -283,6 +289,7 @@ PROFILES = {
     "chains": dict(BASE, w_invoke=0.55, steps=[8, 12, 16], ncallees=5),
     "loops": dict(BASE, w_loop=0.25, w_invoke=0.35, steps=[6, 10, 14]),
     "conds": dict(BASE, w_if=0.25, w_invoke=0.35, steps=[6, 10, 14]),
+    "switch": dict(BASE, w_switch=0.22, w_invoke=0.35, steps=[6, 10, 14]),
     "va": dict(BASE, va=1.0, fp=0.5, cargs=[1, 2, 3, 5, 8, 10, 12], targets=["imm", "reg", "mem"]),
     "targets": dict(BASE, targets=["reg", "mem", "label", "label"], ncallees=4, w_invoke=0.45),
     "dyn": dict(BASE, w_stk=0.2, aligns=[32, 64], vec=0.15, steps=[6, 10]),
